@@ -27,9 +27,43 @@ Monitors
   non-terminating scheduling loop into a violation with a purely logical bound per source line (no wall-clock);
 * PY_START reach counters on the same functions, keyed by their names in the tree under test: informational only. All
   `require` minimums are behavioural (calls made, values handed to / received from the executor, results judged).
+Round 4 (what was still constant):
+* value types: raw payloads are objects of 16 Python shapes (ApprovalToken and other objects / dicts / tuples that carry
+  `integrity` / `data_type` / `value` of their own, a dataclass that is merely CALLED TypedValue, enum members, PortTypes, lists
+  holding a TypedValue, falsy values, identity-only sentinels, nan, str subclasses, callables, exceptions, objects whose dunders
+  raise); labelled values are also instances of TypedValue SUBCLASSES (one of them falsy) and ONE process-wide constant object;
+  handlers forward the very object they received / an equal copy / its bare payload - the model derives the label that
+  arrives and with it whether the forward conforms. Provenance is checked by object identity (what the stub returned / the
+  caller supplied in THIS execution), labels by the port declaration;
+* handler objects of 10 shapes (function, bound method, partial, callable objects - with len 0 / bool False, list / dict
+  subclasses that are empty, an extra optional positional parameter, staticmethod __call__);
+* handlers that raise (12 exception types incl. WiringError itself, TypeError, KeyError, an unprintable one, a BaseException):
+  the outcome of that execution is recorded, not judged; what the stubs see in it (run once, inputs complete and labelled) and
+  every later execution on the same executor are judged in full;
+* execute() called with keywords / positionally, the flag given as int / str / list / float / Fraction / Decimal / None /
+  object, the external inputs in dict / OrderedDict / MappingProxyType / dict-subclass mappings or None;
+* names handed over as str-subclass instances and hostile names (empty string, format and regex metacharacters, NUL, newline,
+  lone surrogates, names differing in case, module names that look like port names);
+* between executions the diagram's public fields are re-assigned equal containers, or it is rebuilt / copy.copy'd / deep-copied / pickled and assigned to the executor's public
+  `diagram` attribute, or the executor itself is copied / deep-copied / replaced by a fresh one on the pickled diagram; the same
+  obligations hold on the duplicate; read-only calls (required_capabilities, repr, iteration) are interleaved;
+* long sessions on ONE executor (`run_churn`; 150 executions in ~1% of the cases, one of 4 000 / 40 000 per run) in which every
+  value is a fresh object dropped before the next is made (address reuse is counted), conforming and contradicting at random;
+* capability tags that are plain strings / members of another Enum / mixtures, frozenset capability objects;
+* the refusal obligations once more in a child interpreter started with `-O` (no child = INCONCLUSIVE);
+* public functions of the anchored modules that no case entered are reported (`public_function_never_entered_in_this_shard:*`).
 """
+import builtins
+import collections
 import copy
+import decimal
+import fractions
+import gc
 import itertools
+import json
+import os
+import pickle
+import subprocess
 import sys
 import types
 
@@ -51,7 +85,14 @@ RULE = ("cases = sweeps (21x21 PortType pairs at connect; declared-port x return
         "order, ~25% with 1-3 scripted re-entrant executions); non-trivial = >=2 modules and >=1 accepted wire and the executor "
         "was run; distinct = (per-module in/out degree in insertion order, multiset of (source, destination) integrity pairs "
         "over the wires, model problem tags per phase, mislabel kinds, outcome per run, static-check flag, (depth, executor, "
-        "external-input variant, outcome) per nested execution)")
+        "external-input variant, outcome) per nested execution). Round 4 adds sweeps (router forwarding a received object for "
+        "port type A x fed by ext raw / ext labelled >= A / wired source >= A x output type B over both data types x 3 forms x "
+        "static checks on/off; 21 port types x 16 raw payload shapes x 3 carried labels x 2 carried data types as external "
+        "input and as handler output; labelled values also as TypedValue-subclass instances and as one shared constant object in "
+        "the label sweeps; chain scenarios x 9 handler-object shapes, x 12 exception types raised by each handler, x 5 call "
+        "styles x 5 mapping types, x 8 ways of duplicating diagram / executor; one `python -O` probe; one long session) and, on the "
+        "random cases, independent transforms: value types 35%, raising handlers 12%, duplicates 12%, call style 20%, mapping type "
+        "15%, str-subclass names 15%, hostile names 12%, interleaved reads 10%; 1% long sessions of 150 executions")
 ASSUMPTIONS = [
     "handlers return a dict (or None) and do not raise or mutate the inputs mapping they receive (a nested execute() a handler "
     "starts is wrapped: its WiringError stays inside the handler)",
@@ -70,6 +111,17 @@ ASSUMPTIONS = [
     "a handler's outputs are identified by port name; the order of the keys in the returned dict carries no meaning",
     "which callable runs after register_module() is called again for the same module is recorded, not judged",
     "diagrams are built through add_module()/connect() only (no wires forged into diagram.wires), so enforce_static_checks on/off must not change any verdict",
+    "a value is 'explicitly labelled' exactly when it is an instance of TypedValue (subclasses included); every other object - "
+    "whatever attributes, keys or class name it has - is a raw payload and is delivered with the label of the port it was supplied to / returned for",
+    "a handler that returns the TypedValue object it received returns an explicitly labelled value: it must equal the declared output port "
+    "like any other labelled output (checked at the output, with static checks on or off)",
+    "any callable is a handler, whatever its truth value, length or type; only the truth value of enforce_static_checks can matter, not its type",
+    "when a handler raises, what execute() does with the exception is not judged (the unchanged tree lets it propagate); the handler is still "
+    "invoked at most once, inputs it was given are judged, and later executions on the same executor are judged in full",
+    "payload objects are handed on as they are (same object); the executor does not call their dunder methods",
+    "assigning another diagram to the executor's public `diagram` attribute makes later executions run that diagram with the handlers registered so far "
+    "(a tree that does not allow the assignment gets a fresh executor instead); a copy / deepcopy / pickle round trip of a diagram is the same diagram",
+    "the refusals hold under `python -O` as well",
 ]
 
 _T = {}
@@ -81,8 +133,128 @@ def T():
         from operon_ai.core import wagent, wiring_runtime, types
         _T.update(wagent=wagent, rt=wiring_runtime, types=types,
                   DT=[d.value for d in types.DataType], LB=sorted(int(l) for l in types.IntegrityLabel),
-                  CAPS=[c.value for c in types.Capability])
+                  CAPS=[c.value for c in types.Capability], CONST={})
+        TV = wiring_runtime.TypedValue
+        try:
+            class LabelledSub(TV):            # an instance IS a TypedValue (explicitly labelled), of another concrete type
+                pass
+
+            class FalsyLabelledSub(TV):       # ... and one whose truth value is False
+                def __bool__(self):
+                    return False
+            LabelledSub(types.DataType(_T["DT"][0]), types.IntegrityLabel(_T["LB"][0]), None)
+            _T["TVSUB"] = (LabelledSub, FalsyLabelledSub)
+        except Exception:                     # the tree's TypedValue cannot be subclassed: use the class itself
+            _T["TVSUB"] = (TV, TV)
+        import dataclasses
+        _T["NAMESAKE"] = dataclasses.make_dataclass("TypedValue", ["data_type", "integrity", "value"], frozen=True)
     return _T
+
+
+def same_payload(got, exp):
+    """Is `got` the payload object `exp` that was handed to the executor? Identity, or equality for plain immutable scalars."""
+    if got is exp:
+        return True
+    if type(got) is not type(exp) or not isinstance(exp, (str, int, float, bytes)):
+        return False
+    return got == exp
+
+
+def same_labelled(a, b):
+    """Two delivered values are the same delivery: same object, or same label around the same payload."""
+    if a is b:
+        return True
+    try:
+        return a.data_type == b.data_type and a.integrity == b.integrity and same_payload(a.value, b.value)
+    except Exception:
+        return False
+
+
+def safe_repr(o):
+    try:
+        return repr(o)
+    except BaseException as e:  # noqa
+        return "<repr of %s raised %s>" % (type(o).__name__, type(e).__name__)
+
+
+FALSY_PAYLOADS = [0, "", [], False, 0.0, (), {}, b"", frozenset()]
+
+
+def payload_object(shape, tok, hd, hl):
+    """A RAW payload (never a TypedValue instance) of the given Python shape, built around the provenance token; hd / hl are a
+    data type / integrity label the payload 'carries' in attributes or keys of its own - which must not matter."""
+    t = T()
+    W, RT, TY = t["wagent"], t["rt"], t["types"]
+    dtc, ilc = TY.DataType(hd), TY.IntegrityLabel(hl)
+    if shape == "approval":
+        AT = getattr(TY, "ApprovalToken", None)
+        try:
+            return AT(request_hash=tok, issuer="c16", integrity=ilc)
+        except Exception:
+            shape = "carrier"
+    if shape == "carrier":
+        return M.Carrier(tok, dtc, ilc)
+    if shape == "namesake":
+        return t["NAMESAKE"](dtc, ilc, tok)
+    if shape == "dict-labels":
+        return {"data_type": dtc, "integrity": ilc, "value": tok}
+    if shape == "tuple3":
+        return (dtc, ilc, tok)
+    if shape == "label-member":
+        return ilc
+    if shape == "dtype-member":
+        return dtc
+    if shape == "porttype":
+        return W.PortType(dtc, ilc)
+    if shape == "nested-tv":
+        return [RT.TypedValue(dtc, ilc, tok)]
+    if shape == "falsy":
+        return FALSY_PAYLOADS[(len(tok) + hl) % len(FALSY_PAYLOADS)]
+    if shape == "sentinel":
+        return M.Sentinel(tok)
+    if shape == "str-subclass":
+        return M.Name(tok)
+    if shape == "nan":
+        return float("nan")
+    if shape == "hostile-dunder":
+        return M.HostileDunder(tok)
+    if shape == "callable":
+        return lambda: tok
+    if shape == "exception":
+        return ValueError(tok)
+    return tok
+
+
+def make_exception(name):
+    W = T()["wagent"]
+    if name == "unprintable":
+        return M.UnprintableError()
+    if name == "base-exception":
+        return M.HandlerAbort("raised by a handler")
+    if name == "WiringError":
+        return W.WiringError("raised by a handler")
+    if name == "KeyError":
+        return KeyError("o0")
+    return getattr(builtins, name)("raised by a handler")
+
+
+TRUTHY = [1, "no", [0], 1.0, fractions.Fraction(1, 3), decimal.Decimal("0.1"), object()]
+FALSY = [0, "", [], 0.0, None, fractions.Fraction(0), decimal.Decimal(0)]
+
+
+class DictSub(dict):
+    pass
+
+
+class OtherTag:
+    """Members of an Enum that is not the library's Capability enum, made on demand for whatever tag value is asked for."""
+    _members = {}
+
+    def __new__(cls, value):
+        if value not in cls._members:
+            import enum
+            cls._members[value] = enum.Enum("OtherTag_" + value, {"TAG": value}).TAG
+        return cls._members[value]
 
 
 def ptype(spec):
@@ -243,6 +415,10 @@ def setup_shard(ctx):
 def teardown_shard(ctx):
     for k, v in MON.reach.items():
         ctx.count("reach:" + k, v)          # informational: keyed by whatever the functions are called in this tree
+        if not any(part.startswith("_") for part in k.split(".")):
+            ctx.count("public_functions_of_the_anchored_modules", 1)
+            if v == 0:
+                ctx.count("public_function_never_entered_in_this_shard:" + k)
     for k, v in MON.watched.items():
         ctx.maxc("code_objects_under_line_counter:" + k, v)
     ctx.count("loop_monitor_line_events", MON.events)
@@ -264,6 +440,12 @@ def _sweeps():
     for n in (1, 2, 3):
         for mask in range(2 ** (n * n)):
             items.append(("digraph", n, mask))
+    for k in range(21):
+        items.append(("forward", k))
+    for k in range(21):
+        items.append(("payload", k))
+    items.append(("optprobe",))
+    items.append(("longchurn",))
     for i in range(len(SCENARIOS)):
         items.append(("scenario", i))
     for k in range(len(CAP_XY)):
@@ -339,6 +521,51 @@ def _scenarios():
         sc.append(M.reentry_all(M.build_history(_chain(list(order)), [[1]], temp_ext={("c", "i"): ["raw"]}, runs=[2]), "same"))
     for order in itertools.permutations("abcd"):
         sc.append(M.reentry_all(_late_chain(order), "same" if order[0] < order[1] else "other"))
+    # ---- round 4
+    sc.append({"modules": [], "attempts": [], "handlers": {}, "ext": {}, "enforce": True, "runs": 2, "faults": ["scenario"], "topo": None})
+    for order in itertools.permutations("abc"):
+        # handlers registered as callables of other shapes (bound methods, partials, callable objects - some of them falsy)
+        for shape in M.CALLABLES[1:]:
+            for who in ("abc", "a", "b", "c"):
+                c = _chain(list(order))
+                for n in who:
+                    c["handlers"][n]["callable"] = shape
+                sc.append(c)
+        # a handler raises (each exception type); two more executions follow on the same executor
+        for who in "abc":
+            for exc in M.HANDLER_EXCEPTIONS:
+                c = _chain(list(order))
+                c["runs"] = 3
+                c["raises"] = [[0, 0, who, exc]]
+                sc.append(c)
+        c = M.reentry_all(_chain(list(order)), "same")
+        c["runs"] = 3
+        c["raises"] = [[0, 1, "b", "TypeError"], [1, 0, "c", "KeyError"], [1, 0, "a", "WiringError"]]
+        sc.append(c)
+        # how execute() is called and what kinds of mappings carry the external inputs
+        for style in M.CALL_STYLES:
+            for cont in M.EXT_CONTAINERS:
+                for c in (_chain(list(order), ext_on=("b", "i"), missing=("b", "i")), _chain(list(order))):
+                    c["call_style"], c["ext_container"], c["runs"] = style, cont, 3
+                    sc.append(c)
+        # names: str subclass instances; the empty string, format / regex metacharacters, newline, NUL, a lone surrogate
+        for strsub in (False, True):
+            c = M.rename_case(_chain(list(order), ext_on=("c", "i")), {"a": "", "b": "{0}%s", "c": "a\nb\x00"}, {"o": "(?P<", "i": "\ud800"})
+            c["strsub"] = strsub
+            sc.append(c)
+            c = _chain(list(order), nohandler="a")
+            c["strsub"], c["reads"] = True, strsub
+            sc.append(c)
+    # the diagram / the executor replaced by a duplicate of itself between two executions; a wire arrives afterwards
+    for order in itertools.permutations("abcd"):
+        for mode in M.DUP_MODES:
+            c = M.build_history(_chain(list(order), dup=True), [[], [2]], runs=[1, 2])
+            c["phases"][0]["dup"] = mode
+            if order[0] > order[1]:
+                c["phases"][1]["dup"] = mode
+            if order[0] > order[2]:
+                M.reentry_all(c, "other")
+            sc.append(c)
     return sc
 
 
@@ -350,7 +577,7 @@ SWEEP = _sweeps()
 def plan(tier):
     extra = 120000 if tier == "quick" else 2400000
     return {"cases": len(SWEEP) + extra, "shards": 8 if tier == "quick" else 14,
-            "min_nontrivial": 2000, "timeout": 600 if tier == "quick" else 2400,
+            "min_nontrivial": 2000, "timeout": 2400 if tier == "quick" else 9000,   # (wall budget only; the machine may be heavily shared)
             "require": {
                 "connect_pairs_swept": 441, "connect_checked": 20000, "connect_accepted": 5000, "connect_rejected": 2000,
                 "executions": 20000, "reports_returned": 3000, "wiring_errors": 3000,
@@ -388,6 +615,29 @@ def plan(tier):
                 "external_input_values_supplied": 20000, "external_input_values_supplied:raw": 5000,
                 "external_input_values_supplied:labelled": 5000, "external_input_values_supplied:label-below-port": 200,
                 "external_input_deliveries_checked": 10000,
+                # round 4
+                "handler_invocations_through:bool-false-callable": 500, "handler_invocations_through:len-zero-callable": 500,
+                "handler_invocations_through:empty-list-callable": 500, "handler_invocations_through:empty-dict-callable": 500,
+                "handler_invocations_through:bound-method": 500, "handler_invocations_through:partial": 500,
+                "handler_invocations_through:extra-optional-arg": 500,
+                "handlers_that_raised": 1000, "executions_judged_after_a_handler_raised_earlier_on_this_executor": 1500,
+                "forwarded_input_objects_returned:conforming": 300, "forwarded_input_objects_returned:contradicting-the-output-port": 1000,
+                "handler_output_values_returned:forwarded-input:fwdcopy": 800, "handler_output_values_returned:forwarded-input:fwdraw": 1500,
+                "handler_output_values_returned:raw-payload-object": 3000, "external_input_values_supplied:raw-payload-object": 4000,
+                "external_input_values_supplied:raw-object-with-own-integrity-attribute-below-port": 300,
+                "handler_output_values_returned:raw-object-with-own-integrity-attribute-differing-from-port": 400,
+                "handler_output_values_returned:typedvalue-subclass": 2000, "external_input_values_supplied:typedvalue-subclass": 2000,
+                "handler_output_values_returned:shared-constant-object": 1000, "external_input_values_supplied:shared-constant-object": 1000,
+                "wire_deliveries_of_payload_objects_checked_by_identity": 4000,
+                "duplicates_taken": 1500, "execute_called_as:keywords": 1500, "execute_called_as:positional": 1500,
+                "execute_called_as:truthy-falsy-other-types": 1500, "execute_called_as:all-keywords-other-types": 1500,
+                "external_inputs_container:mapping-proxy": 1000, "external_inputs_container:ordered-dict": 1000,
+                "external_inputs_container:dict-subclass": 1000, "external_inputs_container:none-when-empty": 1000,
+                "executions_with_str_subclass_names": 3000, "executions_with_hostile_names": 2000,
+                "read_only_calls_interleaved": 5000, "capshare_cases_with_other_tag_or_set_types": 400,
+                "churn_executions": 20000, "churn_fresh_labelled_values_at_the_address_of_a_dropped_one": 5000,
+                "optimized_mode_obligations_judged": 20,
+                **({"sessions_with_more_than_20000_executions_on_one_executor": 1} if tier != "quick" else {}),
             }}
 
 
@@ -407,11 +657,26 @@ def run_case(ctx, n):
             return sweep_digraph(ctx, item[1], item[2])
         if kind == "capshare":
             return sweep_capshare(ctx, item[1])
+        if kind == "forward":
+            return sweep_forward(ctx, item[1])
+        if kind == "payload":
+            return sweep_payload(ctx, item[1])
+        if kind == "optprobe":
+            return optimized_mode_probe(ctx)
+        if kind == "longchurn":
+            return run_churn(ctx, ctx.rng("longchurn"), 4000 if ctx.tier == "quick" else 40000, "long")
         return run_diagram(ctx, copy.deepcopy(SCENARIOS[item[1]]))
     t = T()
     rng = ctx.rng(n)
     if rng.random() < 0.08:
-        return run_capshare(ctx, M.gen_capshare(rng, t["CAPS"]), "random")
+        case = M.gen_capshare(rng, t["CAPS"])
+        if rng.random() < 0.3:
+            case["captype"] = rng.choice(["str", "other-enum", "mixed"])
+        if rng.random() < 0.2:
+            case["frozen"] = True
+        return run_capshare(ctx, case, "random")
+    if rng.random() < 0.01:
+        return run_churn(ctx, rng, 150, "random")
     r = rng.random()
     if r < 0.18:
         case = M.gen_chaos(rng, t["DT"], t["LB"], t["CAPS"])
@@ -429,6 +694,25 @@ def run_case(ctx, n):
         M.permute_handler_orders(case, rng)
     if rng.random() < 0.25:
         M.add_reentry(case, rng)
+    # round 4: value types, handler object shapes, raising handlers, duplicates, call forms, names
+    if rng.random() < 0.35:
+        M.vary_values(case, rng, t["DT"], t["LB"])
+    if rng.random() < 0.12:
+        M.add_raises(case, rng)
+    if rng.random() < 0.12:
+        M.add_dups(case, rng)
+    if rng.random() < 0.2:
+        case["call_style"] = rng.choice(M.CALL_STYLES[1:])
+    if rng.random() < 0.15:
+        case["ext_container"] = rng.choice(M.EXT_CONTAINERS[1:])
+    if rng.random() < 0.15:
+        case["strsub"] = True
+    if rng.random() < 0.1:
+        case["reads"] = True
+    if rng.random() < 0.03:
+        case["gc"] = True
+    if rng.random() < 0.12:
+        M.hostile_names(case, rng)
     run_diagram(ctx, case)
 
 
@@ -479,7 +763,7 @@ def sweep_outlabel(ctx, k):
     t = T()
     ptypes = [[d, l] for d in t["DT"] for l in t["LB"]]
     decl = ptypes[k % len(ptypes)]
-    specs = [["raw"], ["raw-none"]] + [["tv", d, l] for d, l in ptypes]
+    specs = [["raw"], ["raw-none"]] + [[kind, d, l] for kind in M.LABELLED for d, l in ptypes]
     for spec in specs:
         for req in [l for l in t["LB"] if l <= decl[1]]:
             for flip in (False, True):
@@ -522,7 +806,7 @@ def sweep_extlabel(ctx, k):
     t = T()
     ptypes = [[d, l] for d in t["DT"] for l in t["LB"]]
     decl = ptypes[k % len(ptypes)]
-    specs = [["raw"]] + [["tv", d, l] for d, l in ptypes]
+    specs = [["raw"]] + [[kind, d, l] for kind in M.LABELLED for d, l in ptypes]
     for spec in specs:
         case = {"modules": [{"name": "d", "inputs": {"i": decl}, "outputs": {"o": decl}, "caps": []},
                             {"name": "e", "inputs": {"i": [decl[0], 0]}, "outputs": {}, "caps": []}],
@@ -530,6 +814,63 @@ def sweep_extlabel(ctx, k):
                 "handlers": {"d": {"ports": {"o": ["raw"]}, "ret_none": False}},
                 "ext": {"d": {"i": spec}}, "enforce": True, "runs": 1, "faults": ["extlabel-sweep"], "topo": None}
         run_diagram(ctx, case)
+
+
+def sweep_forward(ctx, k):
+    """A router r receives a value on r.x (port type A; externally supplied raw / labelled at or above A, or wired from a source
+    s.o of each type that may flow into A) and returns, for r.y (every port type B), the very object it received / an equal
+    copy / the bare payload. The forwarded label must equal B exactly or the output is refused; B is wired on to a sink."""
+    t = T()
+    ptypes = [[d, l] for d in t["DT"] for l in t["LB"]]
+    A = ptypes[k % len(ptypes)]
+    other = t["DT"][(t["DT"].index(A[0]) + 1) % len(t["DT"])]
+    feeds = [("ext", ["raw"])] + [("ext", ["tv", A[0], l]) for l in t["LB"] if l >= A[1]] + \
+            [("wire", [A[0], l]) for l in t["LB"] if l >= A[1]]
+    for B in [[A[0], l] for l in t["LB"]] + [[other, l] for l in t["LB"]]:
+        for how, what in feeds:
+            for form in ("fwd", "fwdcopy", "fwdraw"):
+                for enforce in (True, False):
+                    mods = [{"name": "r", "inputs": {"x": A, "aux": [t["DT"][0], 0]}, "outputs": {"y": B}, "caps": []},
+                            {"name": "sink", "inputs": {"y": [B[0], 0]}, "outputs": {}, "caps": []}]
+                    attempts = [["r", "y", "sink", "y"]]
+                    handlers = {"r": {"ports": {"y": [form, "x"]}, "ret_none": False}, "sink": {"ports": {}, "ret_none": False}}
+                    ext = {"r": {"aux": ["raw"]}}
+                    if how == "ext":
+                        ext["r"]["x"] = what
+                    else:
+                        mods.insert(0 if enforce else 2, {"name": "s", "inputs": {}, "outputs": {"o": what}, "caps": []})
+                        attempts.append(["s", "o", "r", "x"])
+                        handlers["s"] = {"ports": {"o": ["raw"] if form != "fwdcopy" else ["tv"] + what}, "ret_none": False}
+                    run_diagram(ctx, {"modules": mods, "attempts": attempts, "handlers": handlers, "ext": ext, "enforce": enforce,
+                                      "runs": 2, "faults": ["forward-sweep"], "topo": None})
+
+
+def sweep_payload(ctx, k):
+    """Raw payload objects of every shape, 'carrying' every label / a matching and a foreign data type in attributes of their own,
+    as external input and as handler output of a port of type `decl`; they are passed on (bare payload) to a sink."""
+    t = T()
+    ptypes = [[d, l] for d in t["DT"] for l in t["LB"]]
+    decl = ptypes[k % len(ptypes)]
+    other = t["DT"][(t["DT"].index(decl[0]) + 2) % len(t["DT"])]
+    for shape in M.PAYLOAD_SHAPES:
+        for hl in t["LB"]:
+            for hd in (decl[0], other):
+                spec = ["rawobj", shape, hd, hl]
+                for enforce in (True, False):
+                    for via in ("ext", "handler"):
+                        mods = [{"name": "d", "inputs": {"i": decl}, "outputs": {"o": decl}, "caps": []},
+                                {"name": "e", "inputs": {"i": decl}, "outputs": {}, "caps": []}]
+                        attempts = [["d", "o", "e", "i"]]
+                        handlers = {"d": {"ports": {"o": ["fwdraw", "i"]}, "ret_none": False}, "e": {"ports": {}, "ret_none": False}}
+                        ext = {}
+                        if via == "ext":
+                            ext = {"d": {"i": spec}}
+                        else:
+                            mods.append({"name": "s", "inputs": {}, "outputs": {"o": decl}, "caps": []})
+                            attempts.append(["s", "o", "d", "i"])
+                            handlers["s"] = {"ports": {"o": spec}, "ret_none": False}
+                        run_diagram(ctx, {"modules": mods, "attempts": attempts, "handlers": handlers, "ext": ext,
+                                          "enforce": enforce, "runs": 1, "faults": ["payload-sweep"], "topo": None})
 
 
 def sweep_digraph(ctx, n, mask):
@@ -550,6 +891,265 @@ def sweep_digraph(ctx, n, mask):
                 run_diagram(ctx, M.reentry_all(M.digraph_case(n, mask, list(order), dt, lb), target, depth2=(mask % 2 == 1)))
 
 
+# ---------------------------------------------------------------------------- long sessions of short-lived values
+def run_churn(ctx, rng, iters, origin):
+    """ONE diagram s(i:A) -> o:B -> t(i:(B.dtype, req)), ONE executor, `iters` executions. Every value handed over (external
+    input, handler output) is a fresh object that is dropped - together with the report - before the next one is made, with a
+    garbage collection now and then, so that a fresh (possibly contradicting) value sits at the address of a dropped (conforming)
+    one. Conforming and contradicting values alternate at random; every execution is judged on its own values only."""
+    t = T()
+    W, RT, TY = t["wagent"], t["rt"], t["types"]
+    ptypes = [[d, l] for d in t["DT"] for l in t["LB"]]
+    A, B = rng.choice(ptypes), rng.choice(ptypes)
+    if rng.random() < 0.5:
+        B = list(A)
+    req = rng.choice([l for l in t["LB"] if l <= B[1]])
+    order = rng.choice([["s", "t"], ["t", "s"]])
+    desc = {"churn": origin, "A": A, "B": B, "req": req, "order": order, "iters": iters}
+    diagram = W.WiringDiagram()
+    specs = {"s": W.ModuleSpec(name="s", inputs={"i": ptype(A)}, outputs={"o": ptype(B)}),
+             "t": W.ModuleSpec(name="t", inputs={"i": ptype([B[0], req])})}
+    for n in order:
+        diagram.add_module(specs[n])
+    diagram.connect("s", "o", "t", "i")
+    ex = RT.DiagramExecutor(diagram)
+    st = {}
+    other_dt = lambda d: t["DT"][(t["DT"].index(d) + 1 + st["j"] % (len(t["DT"]) - 1)) % len(t["DT"])]
+
+    def viol(mech, what):
+        ctx.violation(mech + "+long-session", "execution %d of a long session: %s" % (st["j"], what),
+                      dict(desc, j=st["j"], ext_kind=st["ek"], out_kind=st["ok"]))
+
+    def delivered(where, v, dt, need, payload):
+        ctx.count("churn_deliveries_checked")
+        if not isinstance(v, RT.TypedValue):
+            return viol("delivered-not-typedvalue", "%s received %s" % (where, safe_repr(v)))
+        if v.data_type.value != dt:
+            viol("delivered-wrong-data-type", "%s (%s) received a %s value" % (where, dt, v.data_type.value))
+        if int(v.integrity) < need:
+            viol("delivered-insufficient-integrity", "%s requires integrity %d, received %d" % (where, need, int(v.integrity)))
+        if not same_payload(v.value, payload):
+            viol("delivered-foreign-value", "%s received %s" % (where, safe_repr(v.value)))
+
+    def h_s(inputs):
+        st["calls"].append("s")
+        v = inputs.get("i")
+        delivered("s.i", v, A[0], A[1], st["x_payload"])
+        k = st["ok"]
+        tok = "s.o@%d" % st["j"]
+        if k == "raw":
+            out = tok
+        elif k == "obj":
+            out = M.Carrier(tok, TY.DataType(other_dt(B[0])), TY.IntegrityLabel(t["LB"][st["j"] % len(t["LB"])]))
+        elif k == "fwd" and isinstance(v, RT.TypedValue):
+            out, tok = v, v.value
+        elif k == "bad-type":
+            out = RT.TypedValue(TY.DataType(other_dt(B[0])), TY.IntegrityLabel(B[1]), tok)
+        elif k in ("bad-low", "bad-high"):
+            out = RT.TypedValue(TY.DataType(B[0]), TY.IntegrityLabel(st["bad_label"]), tok)
+        else:
+            out = RT.TypedValue(TY.DataType(B[0]), TY.IntegrityLabel(B[1]), tok)
+        st["out_payload"] = out if not isinstance(out, RT.TypedValue) else out.value
+        if isinstance(out, RT.TypedValue):
+            if id(out) in dead:
+                ctx.count("churn_fresh_labelled_values_at_the_address_of_a_dropped_one")
+            st["ids"].append(id(out))
+        return {"o": out}
+
+    def h_t(inputs):
+        st["calls"].append("t")
+        if st["out_bad"]:
+            viol("rejected-output-delivered", "t ran although the output of s contradicts its declared port")
+        delivered("t.i", inputs.get("i"), B[0], req, st.get("out_payload"))
+        return None
+
+    ex.register_module("s", M.make_callable(rng.choice(M.CALLABLES), h_s))
+    ex.register_module("t", M.make_callable(rng.choice(M.CALLABLES), h_t))
+    dead = set()
+    gc_every = rng.choice([16, 64, 256])
+    ctx.count("churn_sessions")
+    ctx.maxc("executions_in_one_session", iters)
+    x = report = None
+    for j in range(iters):
+        ek = rng.choice(["good", "good", "high", "raw", "obj", "bad-low", "bad-type"])
+        ok = rng.choice(["good", "good", "raw", "obj", "fwd", "bad-low", "bad-high", "bad-type"])
+        if ek == "bad-low" and A[1] == t["LB"][0]:
+            ek = "bad-type"
+        if ek == "high" and A[1] == t["LB"][-1]:
+            ek = "good"
+        if ok == "bad-low" and B[1] == t["LB"][0]:
+            ok = "bad-high"
+        if ok == "bad-high" and B[1] == t["LB"][-1]:
+            ok = "bad-low"
+        st.update(j=j, ek=ek, ok=ok, calls=[], ids=[], out_payload=None)
+        st["bad_label"] = rng.choice([l for l in t["LB"] if (l < B[1] if ok == "bad-low" else l > B[1])] or [B[1]])
+        tok = "ext:s.i@%d" % j
+        x_label = list(A)
+        if ek == "raw":
+            x = tok
+        elif ek == "obj":
+            x = M.Carrier(tok, TY.DataType(other_dt(A[0])), TY.IntegrityLabel(t["LB"][j % len(t["LB"])]))
+        else:
+            if ek == "bad-type":
+                x_label = [other_dt(A[0]), A[1]]
+            elif ek == "bad-low":
+                x_label = [A[0], rng.choice([l for l in t["LB"] if l < A[1]])]
+            elif ek == "high":
+                x_label = [A[0], rng.choice([l for l in t["LB"] if l > A[1]])]
+            x = RT.TypedValue(TY.DataType(x_label[0]), TY.IntegrityLabel(x_label[1]), tok)
+            if id(x) in dead:
+                ctx.count("churn_fresh_labelled_values_at_the_address_of_a_dropped_one")
+            st["ids"].append(id(x))
+        st["x_payload"] = x.value if isinstance(x, RT.TypedValue) else x
+        ext_bad = ek in ("bad-low", "bad-type")
+        st["out_bad"] = ok.startswith("bad") or (ok == "fwd" and x_label != list(B))
+        expect_error = ext_bad or st["out_bad"]
+        ctx.count("churn_executions")
+        ctx.count("churn_executions_expected_" + ("error" if expect_error else "report"))
+        MON.arm(400)
+        err = None
+        try:
+            report = ex.execute({"s": {"i": x}}, enforce_static_checks=bool(j % 3))
+            outcome = M.REPORT
+        except W.WiringError as e:
+            outcome, err = M.ERROR, e
+        except LoopBudgetExceeded as e:
+            outcome, err = "loop", e
+        except Exception as e:
+            outcome, err = "other", e
+        finally:
+            MON.disarm()
+        if outcome in ("loop", "other"):
+            viol("scheduler-does-not-terminate" if outcome == "loop" else "execute-raises-non-wiring-error", "%s: %s" % (type(err).__name__, err))
+        elif outcome == M.REPORT and expect_error:
+            viol("report-for-unschedulable:bad-ext-input" if ext_bad else "mislabelled-output-accepted:" + (
+                "forwarded" if ok == "fwd" else ok[4:]), "execute() returned a report")
+        elif outcome == M.ERROR and not expect_error:
+            viol("spurious-wiring-error", "conforming values were refused: %s" % (err,))
+        elif outcome == M.REPORT:
+            if st["calls"] != ["s", "t"] or list(report.execution_order) != ["s", "t"]:
+                viol("handler-count-in-completed-run", "handlers ran as %s, report order %s" % (st["calls"], list(report.execution_order)))
+            else:
+                delivered("report: t.i", report.modules["t"].inputs.get("i"), B[0], req, st["out_payload"])
+                o = report.modules["s"].outputs.get("o")
+                if not isinstance(o, RT.TypedValue) or o.data_type.value != B[0] or int(o.integrity) != B[1] or not same_payload(o.value, st["out_payload"]):
+                    viol("report-output-mislabelled", "report.modules[s].outputs[o] = %s, declared %s" % (safe_repr(o), B))
+        if ext_bad and st["calls"]:
+            ctx.count("churn_handlers_ran_although_external_input_was_refused(recorded)")
+        dead.update(st["ids"])
+        x = report = err = None
+        st["x_payload"] = st["out_payload"] = None
+        if j % gc_every == gc_every - 1:
+            gc.collect(0 if j % 2048 != 2047 else 2)      # (a full collection costs time in proportion to the whole heap)
+    if iters >= 20000:
+        ctx.count("sessions_with_more_than_20000_executions_on_one_executor")
+
+
+# ---------------------------------------------------------------------------- the refusals under `python -O`
+OPT_SCRIPT = r'''
+import json, sys
+from operon_ai.core.types import DataType, IntegrityLabel
+from operon_ai.core.wagent import ModuleSpec, PortType, WiringDiagram, WiringError
+from operon_ai.core.wiring_runtime import DiagramExecutor, TypedValue
+U, V, Tr = sorted(IntegrityLabel)[0], sorted(IntegrityLabel)[1], sorted(IntegrityLabel)[-1]
+D = list(DataType)
+res = {}
+def P(d, l): return PortType(d, l)
+def diagram(mods, wires):
+    g = WiringDiagram()
+    for m in mods: g.add_module(m)
+    for w in wires: g.connect(*w)
+    return g
+def refused_connect(src, dst):
+    g = diagram([ModuleSpec(name="s", outputs={"o": src}), ModuleSpec(name="d", inputs={"i": dst})], [])
+    try:
+        g.connect("s", "o", "d", "i")
+    except Exception:
+        return len(g.wires) == 0
+    return False
+res["connect:type-mismatch"] = refused_connect(P(D[0], Tr), P(D[1], U))
+res["connect:lower-integrity"] = refused_connect(P(D[0], U), P(D[0], V)) and refused_connect(P(D[0], V), P(D[0], Tr))
+res["can_flow_to:illegal"] = (P(D[0], U).can_flow_to(P(D[0], V)) is False) and (P(D[0], Tr).can_flow_to(P(D[1], U)) is False)
+def raises_in_require(a, b):
+    try:
+        a.require_flow_to(b)
+    except Exception:
+        return True
+    return False
+res["require_flow_to:illegal"] = raises_in_require(P(D[0], U), P(D[0], Tr)) and raises_in_require(P(D[0], Tr), P(D[2], U))
+g = diagram([ModuleSpec(name="s", outputs={"o": P(D[0], V)}), ModuleSpec(name="d", inputs={"i": P(D[0], U)})], [])
+try:
+    g.connect("s", "nope", "d", "i"); res["connect:unknown-port"] = False
+except Exception:
+    res["connect:unknown-port"] = g.wires == []
+def run(g, handlers, ext=None, **kw):
+    calls = []
+    ex = DiagramExecutor(g)
+    for n, f in handlers.items():
+        ex.register_module(n, (lambda n, f: lambda inputs: (calls.append(n), f(inputs))[1])(n, f))
+    try:
+        rep = ex.execute(ext, **kw)
+    except WiringError:
+        return "error", calls, None
+    except Exception as e:
+        return "other:" + type(e).__name__, calls, None
+    return "report", calls, rep
+def chain():
+    return diagram([ModuleSpec(name="c", inputs={"i": P(D[0], U)}),
+                    ModuleSpec(name="b", inputs={"i": P(D[0], V)}, outputs={"o": P(D[0], V)}),
+                    ModuleSpec(name="a", outputs={"o": P(D[0], V)})], [("a", "o", "b", "i"), ("b", "o", "c", "i")])
+ok_h = {"a": lambda i: {"o": "x"}, "b": lambda i: {"o": i["i"].value}, "c": lambda i: None}
+out, calls, rep = run(chain(), ok_h)
+res["valid-chain-runs-once-in-order"] = out == "report" and calls == ["a", "b", "c"] and rep.execution_order == ["a", "b", "c"]
+for kw in ({}, {"enforce_static_checks": False}):
+    tag = "" if not kw else "+checks-off"
+    for name, bad in (("wrong-type", TypedValue(D[1], V, "x")), ("lower-integrity", TypedValue(D[0], U, "x")),
+                      ("higher-integrity", TypedValue(D[0], Tr, "x"))):
+        out, calls, rep = run(chain(), dict(ok_h, a=lambda i, bad=bad: {"o": bad}), **kw)
+        res["mislabelled-output:" + name + tag] = out == "error" and "b" not in calls and "c" not in calls
+    g = diagram([ModuleSpec(name="b", inputs={"i": P(D[0], V)}, outputs={"o": P(D[0], V)})], [])
+    for name, bad in (("lower-integrity", TypedValue(D[0], U, "x")), ("wrong-type", TypedValue(D[1], Tr, "x"))):
+        out, calls, rep = run(g, {"b": lambda i: {"o": "y"}}, {"b": {"i": bad}}, **kw)
+        res["bad-external-input:" + name + tag] = out == "error" and calls == []
+    cyc = diagram([ModuleSpec(name="p", inputs={"i": P(D[0], U)}, outputs={"o": P(D[0], U)}),
+                   ModuleSpec(name="q", inputs={"i": P(D[0], U)}, outputs={"o": P(D[0], U)})],
+                  [("p", "o", "q", "i"), ("q", "o", "p", "i")])
+    out, calls, rep = run(cyc, {"p": lambda i: {"o": 1}, "q": lambda i: {"o": 1}}, **kw)
+    res["cycle" + tag] = out == "error" and calls == []
+    dup = chain(); dup.add_module(ModuleSpec(name="z", outputs={"o": P(D[0], Tr)})); dup.connect("z", "o", "b", "i")
+    out, calls, rep = run(dup, dict(ok_h, z=lambda i: {"o": "z"}), **kw)
+    res["duplicate-source" + tag] = out == "error" and "b" not in calls
+    mis = diagram([ModuleSpec(name="b", inputs={"i": P(D[0], V)}, outputs={"o": P(D[0], V)})], [])
+    out, calls, rep = run(mis, {"b": lambda i: {"o": "y"}}, **kw)
+    res["missing-source" + tag] = out == "error" and calls == []
+    out, calls, rep = run(chain(), {"b": ok_h["b"], "c": ok_h["c"]}, **kw)
+    res["missing-handler" + tag] = out == "error" and "b" not in calls and "c" not in calls
+    out, calls, rep = run(chain(), ok_h, {"b": {"i": "extra"}}, **kw)
+    res["external-input-on-wired-port" + tag] = out == "error" and "b" not in calls
+print(json.dumps({"optimize": sys.flags.optimize, "debug": __debug__, "results": res}))
+'''
+
+
+def optimized_mode_probe(ctx):
+    """The refusal obligations once more in a child interpreter started with -O (a guard written as `assert` vanishes there)."""
+    try:
+        r = subprocess.run([sys.executable, "-O", "-B", "-c", OPT_SCRIPT], capture_output=True, text=True, timeout=900,
+                           cwd="/", env=dict(os.environ))
+        data = json.loads(r.stdout.strip().splitlines()[-1])
+    except Exception as e:
+        ctx.inconclusive("the python -O probe of the refusal obligations could not be run: %s" % type(e).__name__)
+        return
+    if data.get("optimize") != 1 or data.get("debug") is not False:
+        ctx.inconclusive("the python -O probe did not run in optimized mode")
+        return
+    ctx.count("optimized_mode_probe_runs")
+    for name, ok in sorted(data["results"].items()):
+        ctx.count("optimized_mode_obligations_judged")
+        if ok is not True:
+            ctx.violation("refusal-lost-under-python-O:" + name.split("+")[0],
+                          "under `python -O` the obligation %r does not hold" % name, {"obligation": name, "child": data})
+
+
 # ---------------------------------------------------------------------------- capabilities of diagrams that share specs
 def sweep_capshare(ctx, k):
     t = T()
@@ -566,15 +1166,30 @@ def run_capshare(ctx, case, origin):
     t = T()
     W, TY = t["wagent"], t["types"]
     ctx.count("capshare_cases")
-    set_objs = [{TY.Capability(c) for c in cs} for cs in case["sets"]]
+    captype = case.get("captype") or "enum"
+    mk = frozenset if case.get("frozen") else set
+    if captype != "enum" or case.get("frozen"):
+        ctx.count("capshare_cases_with_tags:%s%s" % (captype, "+frozenset" if case.get("frozen") else ""))
+        ctx.count("capshare_cases_with_other_tag_or_set_types")
+
+    def cap(c):
+        """A capability tag: the library's enum member, a plain string, a member of some other Enum, or a mixture."""
+        kind = captype if captype != "mixed" else ("enum", "str", "other-enum")[len(c) % 3]
+        if kind == "str":
+            return c
+        if kind == "other-enum":
+            return OtherTag(c)
+        return TY.Capability(c)
+
+    set_objs = [mk(cap(c) for c in cs) for cs in case["sets"]]
     specs, declared = [], []
     for sp in case["specs"]:
         if sp["set"] is not None:
             obj, decl = set_objs[sp["set"]], case["sets"][sp["set"]]
         else:
-            obj, decl = {TY.Capability(c) for c in sp["caps"]}, sp["caps"]
+            obj, decl = mk(cap(c) for c in sp["caps"]), sp["caps"]
         specs.append(W.ModuleSpec(name=sp["name"], capabilities=obj))
-        declared.append(frozenset(TY.Capability(c) for c in decl))
+        declared.append(frozenset(cap(c) for c in decl))
     diagrams = [W.WiringDiagram() for _ in range(case["ndiagrams"])]
     members = [[] for _ in diagrams]
     queried = [0] * len(diagrams)
@@ -584,10 +1199,10 @@ def run_capshare(ctx, case, origin):
         exp = frozenset().union(*[declared[j] for j in held])
         got = diagram.required_capabilities()
         ok = isinstance(got, (set, frozenset)) and got == exp
-        log.append([where, sorted(c.value for c in got) if isinstance(got, (set, frozenset)) else repr(got)])
+        log.append([where, sorted(str(getattr(c, "value", c)) for c in got) if isinstance(got, (set, frozenset)) else repr(got)])
         if not ok:
             ctx.violation(mech, "%s: required_capabilities() = %s, but its modules %s declared %s" % (
-                where, log[-1][1], [case["specs"][j]["name"] for j in held], sorted(c.value for c in exp)),
+                where, log[-1][1], [case["specs"][j]["name"] for j in held], sorted(str(getattr(c, "value", c)) for c in exp)),
                 dict(case, origin=origin, answers=list(log)))
         return ok
 
@@ -630,8 +1245,9 @@ def brief(case):
     d = {k: case[k] for k in ("modules", "attempts", "handlers", "ext", "enforce", "runs", "faults")}
     if case.get("phases"):
         d["phases"] = case["phases"]
-    if case.get("reenter"):
-        d["reenter"] = case["reenter"]
+    for k in ("reenter", "raises", "strsub", "call_style", "ext_container", "reads", "gc"):
+        if case.get(k):
+            d[k] = case[k]
     return d
 
 
@@ -687,6 +1303,27 @@ def run_diagram(ctx, case):
     need_other = any(ent["target"] == "other" for ent in case.get("reenter") or [])
     ex_other = None
     nested_an = {}
+    NM = M.Name if case.get("strsub") else str       # names are handed to the API as plain str or as a str subclass
+    raises = case.get("raises") or []
+    call_style = case.get("call_style") or "default"
+    ext_container = case.get("ext_container") or "dict"
+    reads = bool(case.get("reads"))
+    stubs = {}                                         # module -> handler object currently registered by this check
+    raised_in = {"n": 0}
+    execs = {"n": 0}
+
+    def read_only_calls(report=None):
+        """Reporting / read-only use of the public objects; must not change anything that follows."""
+        ctx.count("read_only_calls_interleaved")
+        diagram.required_capabilities()
+        safe_repr(diagram)
+        list(diagram.wires)
+        sorted(diagram.modules, key=safe_repr)
+        for w_ in diagram.wires[:2]:
+            hash(w_)
+        if report is not None:
+            safe_repr(report)
+            list(getattr(report, "execution_order", ()))
 
     # ---- value bookkeeping
     def token(mname, port, run):
@@ -695,12 +1332,34 @@ def run_diagram(ctx, case):
     def ext_token(mname, port, run):
         return "ext:%s.%s@%s" % (mname, port, run)
 
-    def build(spec, tok):
-        if spec[0] == "raw":
-            return tok
-        if spec[0] == "raw-none":
-            return None
-        return RT.TypedValue(TY.DataType(spec[1]), TY.IntegrityLabel(spec[2]), tok)
+    def build(spec, tok, received=None):
+        """-> (value handed to the executor, its payload object). `received`: the inputs the calling handler was given."""
+        kind = spec[0]
+        if kind == "raw":
+            return tok, tok
+        if kind == "raw-none":
+            return None, None
+        if kind == "rawobj":
+            o = payload_object(spec[1], tok, spec[2], spec[3])
+            return o, o
+        if kind in ("fwd", "fwdcopy", "fwdraw"):
+            src = (received or {}).get(spec[1])
+            if not isinstance(src, RT.TypedValue):
+                return tok, tok                         # nothing usable arrived there: a plain raw value instead
+            if kind == "fwd":
+                return src, src.value
+            if kind == "fwdcopy":
+                return RT.TypedValue(src.data_type, src.integrity, src.value), src.value
+            return src.value, src.value
+        dt, il = TY.DataType(spec[1]), TY.IntegrityLabel(spec[2])
+        if kind == "tvconst":                           # ONE object per label for the whole process, payload None
+            key = (spec[1], spec[2])
+            if key not in t["CONST"]:
+                t["CONST"][key] = RT.TypedValue(dt, il, None)
+            return t["CONST"][key], None
+        if kind == "tvsub":
+            return t["TVSUB"][(len(tok) + spec[2]) % 2](dt, il, tok), tok
+        return RT.TypedValue(dt, il, tok), tok
 
     def check_inputs(state, mname, inputs, where):
         """I2 + I4 on the inputs a module was given in the execution `state` (at the stub, and again in the report)."""
@@ -714,7 +1373,7 @@ def run_diagram(ctx, case):
         missing = sorted(set(decl) - keys)
         if missing:
             ctx.violation("module-ran-with-missing-input", "%s: module %s ran without input port(s) %s" % (where, mname, missing),
-                          dict(desc, module=mname, inputs=repr(inputs)))
+                          dict(desc, module=mname, inputs=safe_repr(inputs)))
         for p in sorted(keys):
             v = inputs[p]
             if p not in decl:
@@ -723,18 +1382,18 @@ def run_diagram(ctx, case):
                 continue
             ctx.count("delivered_inputs_checked")
             if not isinstance(v, RT.TypedValue):
-                ctx.violation("delivered-not-typedvalue", "%s: %s.%s received unlabelled %r" % (where, mname, p, v), dict(desc, module=mname))
+                ctx.violation("delivered-not-typedvalue", "%s: %s.%s received unlabelled %s" % (where, mname, p, safe_repr(v)), dict(desc, module=mname))
                 continue
             dt, req = decl[p]
             if v.data_type.value != dt:
                 ctx.violation("delivered-wrong-data-type", "%s: %s.%s (%s) received a %s value" % (where, mname, p, dt, v.data_type.value),
-                              dict(desc, module=mname, port=p, value=repr(v)))
+                              dict(desc, module=mname, port=p, value=safe_repr(v)))
             if int(v.integrity) < req:
                 ctx.violation("delivered-insufficient-integrity", "%s: %s.%s requires integrity %d, received %d" % (
-                    where, mname, p, req, int(v.integrity)), dict(desc, module=mname, port=p, value=repr(v)))
-            if isinstance(v.value, str) and v.value in state["poison"]:
-                ctx.violation("rejected-output-delivered", "%s: %s.%s received %r, a handler output that contradicts its declared port" % (
-                    where, mname, p, v.value), dict(desc, module=mname, port=p, value=repr(v)))
+                    where, mname, p, req, int(v.integrity)), dict(desc, module=mname, port=p, value=safe_repr(v)))
+            if type(v.value) is str and v.value in state["poison"]:
+                ctx.violation("rejected-output-delivered", "%s: %s.%s received %s, a handler output that contradicts its declared port" % (
+                    where, mname, p, safe_repr(v.value)), dict(desc, module=mname, port=p, value=safe_repr(v)))
             srcs = an["sources"].get((mname, p), [])
             if len(srcs) != 1:
                 continue      # no or ambiguous source: the diagram must not complete; provenance undefined
@@ -745,28 +1404,36 @@ def run_diagram(ctx, case):
                 if prog is None or prog.get("ret_none") or sp not in prog["ports"] or (sm, sp) in an["mislabelled"]:
                     continue
                 ctx.count("wire_deliveries_with_provenance")
-                exp_payload = None if prog["ports"][sp][0] == "raw-none" else token(sm, sp, state["run"])
-                if v.value != exp_payload:
-                    ctx.violation("delivered-foreign-value", "%s: %s.%s is wired from %s.%s but received %r" % (
-                        where, mname, p, sm, sp, v.value), dict(desc, module=mname, port=p, expected=exp_payload))
+                rec = state["out_payload"].get((sm, sp))     # what the source's handler returned in THIS execution
+                if rec is None or not same_payload(v.value, rec[0]):
+                    ctx.violation("delivered-foreign-value", "%s: %s.%s is wired from %s.%s but received %s" % (
+                        where, mname, p, sm, sp, safe_repr(v.value)),
+                        dict(desc, module=mname, port=p, expected=safe_repr(rec[0]) if rec else "(source returned nothing in this execution)"))
+                elif not isinstance(rec[0], (str, type(None))):
+                    ctx.count("wire_deliveries_of_payload_objects_checked_by_identity")
                 if int(v.integrity) > mods[sm]["outputs"][sp][1]:
                     ctx.violation("delivered-label-raised", "%s: %s.%s carries integrity %d, its source %s.%s only has %d" % (
                         where, mname, p, int(v.integrity), sm, sp, mods[sm]["outputs"][sp][1]), dict(desc, module=mname, port=p))
             else:
                 spec = s[1]
                 ctx.count("external_input_deliveries_checked")
-                if v.value != ext_token(mname, p, state["run"]):
-                    ctx.violation("delivered-foreign-value", "%s: %s.%s has only an external source but received %r" % (
-                        where, mname, p, v.value), dict(desc, module=mname, port=p))
-                if spec[0] == "tv" and int(v.integrity) > spec[2]:
+                rec = state["ext_payload"].get((mname, p))
+                if rec is None or not same_payload(v.value, rec[0]):
+                    ctx.violation("delivered-foreign-value", "%s: %s.%s has only an external source but received %s" % (
+                        where, mname, p, safe_repr(v.value)), dict(desc, module=mname, port=p))
+                if M.is_labelled(spec) and int(v.integrity) > spec[2]:
                     ctx.violation("delivered-label-raised", "%s: external value for %s.%s was labelled %d, delivered as %d" % (
                         where, mname, p, spec[2], int(v.integrity)), dict(desc, module=mname, port=p))
 
     def make_stub(mname, prog):
+        shape = prog.get("callable") or "function"
+
         def stub(inputs):
             state = frames[-1]      # the execution that is invoking this handler
             mods, an = cur["mods"], state["an"]
             ctx.count("handler_invocations")
+            if shape != "function":
+                ctx.count("handler_invocations_through:" + shape)
             if state["nested"]:
                 ctx.count("handler_invocations_after_a_nested_run_returned")
             run = state["run"]
@@ -788,7 +1455,7 @@ def run_diagram(ctx, case):
                 else:
                     mech = "module-ran-before-feeder"
                 ctx.violation(mech, "handler of %s invoked before its feeding module(s) %s ran" % (mname, late),
-                              dict(desc, module=mname, calls=list(state["calls"]), inputs=repr(dict(inputs))))
+                              dict(desc, module=mname, calls=list(state["calls"]), inputs=safe_repr(dict(inputs))))
             state["calls"].append(mname)
             snap = dict(inputs)
             state["seen"][mname] = snap
@@ -796,18 +1463,41 @@ def run_diagram(ctx, case):
             # scripted re-entry: this handler starts further executions of the diagram before it returns
             for ent in reentry.get((state["depth"], mname), ()):
                 execute_once(ent, state)
+            if reads:
+                read_only_calls()
+            for r in raises:
+                if r[0] == state["outer"] and r[1] == state["depth"] and r[2] == mname:
+                    state["raised"] = [mname, r[3]]
+                    ctx.count("handlers_that_raised")
+                    ctx.count("handlers_that_raised:" + r[3])
+                    raise make_exception(r[3])
             if prog.get("ret_none"):
                 return None
             out = {}
             for p, spec in prog["ports"].items():
                 tok = token(mname, p, run)
-                out[p] = build(spec, tok)
+                out[p], payload = build(spec, tok, snap)
+                state["out_payload"][(mname, p)] = (payload,)
+                labelled = isinstance(out[p], RT.TypedValue)
                 ctx.count("handler_output_values_returned")
                 ctx.count("handler_output_values_returned:" + (
-                    "raw" if spec[0] != "tv" else "labelled-against-declaration" if (mname, p) in an["mislabelled"]
+                    "raw" if not labelled else "labelled-against-declaration" if (mname, p) in an["mislabelled"]
                     else "labelled-as-declared" if p in mods[mname]["outputs"] else "labelled-on-undeclared-port"))
+                if spec[0] == "rawobj":
+                    ctx.count("handler_output_values_returned:raw-payload-object")
+                    ctx.count("raw_payload_objects_handed_over:" + spec[1])
+                    if hasattr(payload, "integrity") and p in mods[mname]["outputs"] and int(payload.integrity) != mods[mname]["outputs"][p][1]:
+                        ctx.count("handler_output_values_returned:raw-object-with-own-integrity-attribute-differing-from-port")
+                elif spec[0] in ("tvsub", "tvconst"):
+                    ctx.count("handler_output_values_returned:" + ("typedvalue-subclass" if spec[0] == "tvsub" else "shared-constant-object"))
+                elif spec[0] in ("fwd", "fwdcopy", "fwdraw") and payload is not tok:
+                    ctx.count("handler_output_values_returned:forwarded-input:" + spec[0])
+                    if spec[0] == "fwd" and p in mods[mname]["outputs"]:
+                        ctx.count("forwarded_input_objects_returned:" + (
+                            "contradicting-the-output-port" if (mname, p) in an["mislabelled"] else "conforming"))
                 if (mname, p) in an["mislabelled"]:
-                    state["poison"].add(tok)
+                    if spec[0] in ("tv", "tvsub"):
+                        state["poison"].add(tok)
                     state["rejected_invoked"] = "%s.%s (%s)" % (mname, p, an["mislabelled"][(mname, p)])
             decl = mods[mname]["outputs"]
             if len(out) >= 2 and set(out) == set(decl) and list(out) != list(decl):
@@ -816,7 +1506,9 @@ def run_diagram(ctx, case):
                 if len({tuple(decl[p]) for p in moved}) > 1:
                     ctx.count("reordered_returns_across_differing_ports")
             return out
-        return stub
+        if shape != "function":
+            ctx.count("handlers_registered_as:" + shape)
+        return M.make_callable(shape, stub)
 
     def execute_once(ent, parent):
         """One execute() under the monitors, judged on its own. ent/parent = None: an outermost execution of the current
@@ -838,18 +1530,58 @@ def run_diagram(ctx, case):
             origin = {"started_by_handler_of": parent["calls"][-1], "depth": depth, "executor": ent["target"], "ext_mode": mode,
                       "enforce": enforce}
         state = {"run": run, "calls": [], "seen": {}, "poison": set(), "rejected_invoked": None, "an": an, "depth": depth,
-                 "nested": [], "origin": origin}
-        ext_real = {mn: {p: build(spec, ext_token(mn, p, run)) for p, spec in ports.items()} for mn, ports in ext_specs.items()}
+                 "nested": [], "origin": origin, "out_payload": {}, "ext_payload": {}, "raised": None,
+                 "outer": len(outcomes) if parent is None else parent["outer"]}
+        execs["n"] += 1
+        if NM is not str:
+            ctx.count("executions_with_str_subclass_names")
+        if "hostile-names" in case["faults"]:
+            ctx.count("executions_with_hostile_names")
+        inner_t = {"dict": dict, "ordered-dict": collections.OrderedDict, "mapping-proxy": lambda d: types.MappingProxyType(dict(d)),
+                   "dict-subclass": DictSub, "none-when-empty": dict}[ext_container]
+        ext_real = {}
         for mn, ports in ext_specs.items():
+            row = {}
             for p, spec in ports.items():
+                row[NM(p)], payload = build(spec, ext_token(mn, p, run))
+                state["ext_payload"][(mn, p)] = (payload,)
                 ctx.count("external_input_values_supplied")
-                ctx.count("external_input_values_supplied:" + ("raw" if spec[0] != "tv" else "labelled"))
+                ctx.count("external_input_values_supplied:" + ("labelled" if M.is_labelled(spec) else "raw"))
                 decl_in = cur["mods"].get(mn, {}).get("inputs", {}).get(p)
-                if spec[0] == "tv" and decl_in is not None and spec[1] == decl_in[0] and spec[2] < decl_in[1]:
+                if M.is_labelled(spec) and decl_in is not None and spec[1] == decl_in[0] and spec[2] < decl_in[1]:
                     ctx.count("external_input_values_supplied:label-below-port")
-        kwargs = {}
-        if not enforce:
-            kwargs["enforce_static_checks"] = False
+                if spec[0] == "rawobj":
+                    ctx.count("external_input_values_supplied:raw-payload-object")
+                    ctx.count("raw_payload_objects_handed_over:" + spec[1])
+                    if hasattr(payload, "integrity") and decl_in is not None and int(payload.integrity) < decl_in[1]:
+                        ctx.count("external_input_values_supplied:raw-object-with-own-integrity-attribute-below-port")
+                elif spec[0] in ("tvsub", "tvconst"):
+                    ctx.count("external_input_values_supplied:" + ("typedvalue-subclass" if spec[0] == "tvsub" else "shared-constant-object"))
+            ext_real[NM(mn)] = inner_t(row)
+        ext_arg = inner_t(ext_real)
+        if ext_container == "none-when-empty" and not ext_real:
+            ext_arg = None
+        # how execute() is called: argument forms and the Python types of the flag (only its truth value can matter)
+        pick = (execs["n"] + len(str(run))) % 7
+        flag = enforce if call_style in ("default", "keywords", "positional") else (TRUTHY[pick] if enforce else FALSY[pick])
+        args, kwargs = [], {}
+        if call_style == "default":
+            if ext_real or (len(accepted) + depth) % 2:
+                args.append(ext_arg)
+            if not enforce:
+                kwargs["enforce_static_checks"] = False
+        elif call_style == "positional":
+            args = [ext_arg, flag]
+        elif call_style == "truthy-falsy-other-types":
+            args, kwargs = [ext_arg], {"enforce_static_checks": flag}
+        else:
+            kwargs = {"external_inputs": ext_arg, "enforce_static_checks": flag}
+        if call_style != "default":
+            ctx.count("execute_called_as:" + call_style)
+            if call_style not in ("keywords", "positional"):
+                ctx.count("enforce_flag_given_as:" + type(flag).__name__)
+        if ext_container != "dict":
+            ctx.count("external_inputs_container:" + ext_container)
         report = None
         err = None
         ctx.count("executions")
@@ -868,16 +1600,17 @@ def run_diagram(ctx, case):
         frames.append(state)
         MON.arm(4 * (len(cur["order"]) + 2) * (size + sum(len(v) for v in ext_specs.values())) + 20)
         try:
-            if ext_real or (len(accepted) + depth) % 2:
-                report = executor.execute(ext_real, **kwargs)
-            else:
-                report = executor.execute(**kwargs)
+            report = executor.execute(*args, **kwargs)
             outcome = M.REPORT
         except W.WiringError as e:
             outcome, err = M.ERROR, e
         except LoopBudgetExceeded as e:
             outcome, err = "loop", e
         except Exception as e:
+            outcome, err = "other", e
+        except BaseException as e:
+            if state["raised"] is None or not isinstance(e, M.HandlerAbort):
+                raise
             outcome, err = "other", e
         finally:
             MON.disarm()
@@ -892,7 +1625,19 @@ def run_diagram(ctx, case):
                 ctx.count("outer_outcome_around_nested_runs:" + outcome)
                 if an["expect"] == M.REPORT:
                     ctx.count("outer_report_expected_around_nested_runs")
-            judge(ctx, jview, desc, an, state, outcome, report, err, check_inputs, token, run)
+            if state["raised"] is not None and outcome != "loop":
+                # a handler raised: what execute() does with a user exception is outside the statement (the unchanged tree lets
+                # it propagate). Judged: everything the stubs saw in this execution, and every LATER execution in full.
+                ctx.count("executions_in_which_a_handler_raised")
+                ctx.count("outcome_when_a_handler_raised:" + (outcome if outcome != "other" else "exception-propagated"))
+                outcome = "handler-raised"
+                raised_in["n"] += 1
+            else:
+                if raised_in["n"]:
+                    ctx.count("executions_judged_after_a_handler_raised_earlier_on_this_executor")
+                judge(ctx, jview, desc, an, state, outcome, report, err, check_inputs, token, run)
+            if reads:
+                read_only_calls(report)
         finally:
             frames.pop()
         if parent is not None:
@@ -900,12 +1645,94 @@ def run_diagram(ctx, case):
             nest_hist.append((depth, ent["target"], ent["ext_mode"], outcome))
         return outcome
 
+    def register_all(executor):
+        for mname_, h in stubs.items():
+            executor.register_module(NM(mname_), h)
+
+    def point_at(executor, new_diagram):
+        """The executor's public `diagram` attribute is assigned; where a tree does not allow that, a fresh executor is used."""
+        try:
+            executor.diagram = new_diagram
+            if executor.diagram is new_diagram:
+                ctx.count("executor_diagram_attribute_assigned")
+                return executor
+        except Exception:
+            pass
+        ctx.count("executor_diagram_attribute_not_assignable(fresh executor instead)")
+        executor = RT.DiagramExecutor(new_diagram)
+        register_all(executor)
+        return executor
+
     for k, ph in enumerate(phases):
         ctx.phase = k
+        if case.get("gc") and k:
+            gc.collect(0)
+        # ---- the diagram / the executor is replaced by a duplicate of itself (object protocols, public attribute assignment)
+        dup = ph.get("dup") if k and ex is not None else None
+        if dup:
+            ctx.count("duplicates_taken")
+            ctx.count("duplicates_taken:" + dup)
+            newd = ex_copy = None
+            try:
+                if dup == "assign-rebuilt":
+                    newd = W.WiringDiagram()
+                    for spec_ in diagram.modules.values():
+                        newd.add_module(spec_)
+                    for w_ in accepted:
+                        newd.connect(*[NM(x) for x in w_])
+                elif dup == "assign-deepcopy":
+                    newd = copy.deepcopy(diagram)
+                elif dup in ("assign-pickle", "fresh-executor-on-pickled-diagram"):
+                    newd = pickle.loads(pickle.dumps(diagram))
+                elif dup == "assign-copy":
+                    newd = copy.copy(diagram)
+                elif dup == "copy-executor":
+                    ex_copy = copy.copy(ex)
+                elif dup == "deepcopy-executor":
+                    ex_copy = copy.deepcopy(ex)
+            except Exception:
+                # (a tree whose objects do not support that protocol: nothing to judge, the session goes on with the originals)
+                ctx.count("duplicate_protocol_not_supported:" + dup)
+                dup = "none"
+            if dup == "fields-reassigned":
+                # the diagram's public fields get equal containers of their own (same modules, same wires)
+                try:
+                    diagram.wires = list(diagram.wires)
+                    diagram.modules = dict(diagram.modules)
+                except Exception:
+                    ctx.count("diagram_fields_not_assignable")
+            elif dup == "none":
+                pass
+            elif dup == "copy-executor":
+                ex = ex_copy
+            elif dup == "deepcopy-executor":
+                ex = ex_copy
+                diagram = ex.diagram
+                if ex_other is not None:
+                    ex_other = point_at(ex_other, diagram)
+            elif dup == "fresh-executor-on-pickled-diagram":
+                diagram = newd
+                ex = RT.DiagramExecutor(diagram)
+                register_all(ex)
+                if ex_other is not None:
+                    ex_other = RT.DiagramExecutor(diagram)
+                    register_all(ex_other)
+            else:
+                diagram = newd
+                ex = point_at(ex, diagram)
+                if ex_other is not None:
+                    ex_other = point_at(ex_other, diagram)
+            if [tuple(str(x) for x in (w_.src_module, w_.src_port, w_.dst_module, w_.dst_port)) for w_ in diagram.wires] != accepted \
+                    or [str(x) for x in diagram.modules] != cur["order"]:
+                ctx.violation("duplicate-of-diagram-differs", "after %s the diagram has modules %s / wires %s" % (
+                    dup, safe_repr(list(diagram.modules)), safe_repr(diagram.wires)), desc)
+                return
+        if reads and k:
+            read_only_calls()
         # ---- new modules
         for m in ph["modules"]:
-            diagram.add_module(W.ModuleSpec(name=m["name"], inputs={p: ptype(s) for p, s in m["inputs"].items()},
-                                            outputs={p: ptype(s) for p, s in m["outputs"].items()},
+            diagram.add_module(W.ModuleSpec(name=NM(m["name"]), inputs={NM(p): ptype(s) for p, s in m["inputs"].items()},
+                                            outputs={NM(p): ptype(s) for p, s in m["outputs"].items()},
                                             capabilities={TY.Capability(c) for c in m["caps"]}))
             view["modules"].append(m)
         view["ext"], view["enforce"], view["runs"] = ph["ext"], ph["enforce"], ph["runs"]
@@ -931,7 +1758,7 @@ def run_diagram(ctx, case):
             before = list(diagram.wires)
             ctx.count("connect_checked")
             try:
-                diagram.connect(*a)
+                diagram.connect(*[NM(x) for x in a])
                 got = True
             except W.WiringError:
                 got = False
@@ -976,10 +1803,10 @@ def run_diagram(ctx, case):
                 ctx.count("handlers_replaced_between_executions")
             view["handlers"][mname] = prog
             if mname in mods:
-                stub = make_stub(mname, prog)
-                ex.register_module(mname, stub)
+                stub = stubs[mname] = make_stub(mname, prog)
+                ex.register_module(NM(mname), stub)
                 if ex_other is not None:
-                    ex_other.register_module(mname, stub)
+                    ex_other.register_module(NM(mname), stub)
         prev = cur["an"]
         an = cur["an"] = M.analyze(view, accepted)
         problem_hist.append(tuple(sorted(set(an["problems"]))))
@@ -1086,9 +1913,9 @@ def judge(ctx, case, desc, an, state, outcome, report, err, check_inputs, token,
         check_inputs(state, m, me.inputs, "in report")
         if m in state["seen"]:
             seen = state["seen"][m]
-            if set(seen) != set(me.inputs) or any(seen[p] != me.inputs[p] for p in seen):
+            if set(seen) != set(me.inputs) or any(not same_labelled(seen[p], me.inputs[p]) for p in seen):
                 ctx.violation("report-inputs-differ-from-delivered", "report.modules[%s].inputs differs from what the handler received" % m,
-                              dict(w, module=m, report_inputs=repr(me.inputs), handler_inputs=repr(seen)))
+                              dict(w, module=m, report_inputs=safe_repr(me.inputs), handler_inputs=safe_repr(seen)))
         prog = case["handlers"].get(m)
         if prog is None or prog.get("ret_none") or set(prog["ports"]) != set(mods[m]["outputs"]):
             continue
@@ -1096,12 +1923,14 @@ def judge(ctx, case, desc, an, state, outcome, report, err, check_inputs, token,
             v = me.outputs.get(p)
             if (m, p) in an["mislabelled"]:
                 continue
-            exp_payload = None if prog["ports"][p][0] == "raw-none" else token(m, p, run)
+            rec = state["out_payload"].get((m, p))
+            if rec is None:
+                continue       # the handler was not invoked in this execution: reported above
             ctx.count("handler_outputs_checked_in_report")
             T_ = T()["rt"].TypedValue
-            if not isinstance(v, T_) or v.data_type.value != dt or int(v.integrity) != il or v.value != exp_payload:
-                ctx.violation("report-output-mislabelled", "report.modules[%s].outputs[%s] = %r, declared (%s, %d), handler returned %r" % (
-                    m, p, v, dt, il, exp_payload), dict(w, module=m, port=p))
+            if not isinstance(v, T_) or v.data_type.value != dt or int(v.integrity) != il or not same_payload(v.value, rec[0]):
+                ctx.violation("report-output-mislabelled", "report.modules[%s].outputs[%s] = %s, declared (%s, %d), handler returned %s" % (
+                    m, p, safe_repr(v), dt, il, safe_repr(rec[0])), dict(w, module=m, port=p))
 
 
 if __name__ == "__main__":
